@@ -120,6 +120,15 @@ func pushdownAllowed(opts *Opts, query *sql.Query) (bool, error) {
 				return false, err
 			}
 			if current.GroupByAll && parentGroupByAll {
+				if !tableKeysConfinedToPartitions(t) {
+					// The union of the partitions' rows is only the table's rows if a
+					// given table key lives on a single partition. That is not the case
+					// if the table is partitioned by dimensions that its own GROUP BY
+					// discards (including the default of partitioning by all of a
+					// point's dimensions).
+					log.Debug("Pushdown not allowed because table keys are spread across partitions")
+					return false, nil
+				}
 				log.Debug("Pushdown allowed because we're grouping by all")
 			} else {
 				partitionBy := t.GetPartitionBy()
@@ -169,6 +178,35 @@ func pushdownAllowed(opts *Opts, query *sql.Query) (bool, error) {
 	}
 
 	return false, fmt.Errorf("Should never reach this branch of pushdownAllowed")
+}
+
+// tableKeysConfinedToPartitions reports whether every (group by) key of the
+// table is stored on exactly one partition.
+func tableKeysConfinedToPartitions(t Table) bool {
+	groupBy := t.GetGroupBy()
+	if len(groupBy) == 0 {
+		// table keeps all dimensions of its points: whatever the partition keys
+		// are, they are part of the table's key
+		return true
+	}
+	partitionBy := t.GetPartitionBy()
+	if len(partitionBy) == 0 {
+		// partitioned by all dimensions of the point, some of which the table's
+		// GROUP BY may discard
+		return false
+	}
+	groupParams := make(map[string]bool)
+	for _, gb := range groupBy {
+		gb.Expr.WalkOneToOneParams(func(param string) {
+			groupParams[param] = true
+		})
+	}
+	for _, partitionKey := range partitionBy {
+		if !groupParams[partitionKey] {
+			return false
+		}
+	}
+	return true
 }
 
 func planClusterPushdown(opts *Opts, query *sql.Query) (core.FlatRowSource, error) {
